@@ -1109,4 +1109,6 @@ func TestVerifC23(t *testing.T) {
 		cfg.codec = (i/len(combos) + i%len(combos)) % len(c23Codecs)
 		c23Run(run, i, cfg, nPackets)
 	})
+	// lossy part (c23_loss_test.go): the same oracle when packets are lost in bursts and return as RTX retransmissions
+	c23Lossy(run, n, kit.N(6, 60))
 }
